@@ -51,9 +51,15 @@ type Queryable struct {
 	Closed    int
 	Selects   []SelectCall
 	Open      map[*querier]bool
+	// OnCallback, if set, is invoked at every storage callback with the site name
+	// (used to cancel the query context at the k-th callback).
+	OnCallback func(site string)
 }
 
 func (q *Queryable) fault(site string) bool {
+	if q.OnCallback != nil {
+		q.OnCallback(site)
+	}
 	if q.FaultMode == 0 {
 		return false
 	}
@@ -151,7 +157,7 @@ func (s *seriesSet) Next() bool {
 	return s.pos < len(s.ser)
 }
 func (s *seriesSet) At() storage.Series {
-	if s.q.FaultMode == 0 {
+	if s.q.FaultMode == 0 && s.q.OnCallback == nil {
 		return s.ser[s.pos]
 	}
 	return &faultSeries{Series: s.ser[s.pos], q: s.q}
@@ -164,14 +170,14 @@ type faultSeries struct {
 }
 
 func (f *faultSeries) Labels() labels.Labels {
-	if f.q.FaultMode >= 2 { // these callbacks cannot return an error, only panic
+	if f.q.FaultMode >= 2 || f.q.FaultMode == 0 { // these callbacks cannot return an error, only panic (or observe)
 		f.q.fault("Series.Labels")
 	}
 	return f.Series.Labels()
 }
 
 func (f *faultSeries) Iterator() chunkenc.Iterator {
-	if f.q.FaultMode >= 2 {
+	if f.q.FaultMode >= 2 || f.q.FaultMode == 0 {
 		f.q.fault("Series.Iterator")
 	}
 	return f.Series.Iterator()
